@@ -30,6 +30,7 @@ type Engine struct {
 	LIASolver     string
 	CrossSolver   string
 	CrossCheck    bool
+	Tier          int
 	InitPrefixes  []string // packages (path prefixes) whose initialisers are executed
 	Coverage      map[string]int
 	covMu         sync.Mutex
@@ -159,6 +160,8 @@ type Machine struct {
 	expectPanic bool
 	printed   []string
 	observed  []rawObs
+	pending   []pendingOb
+	nonneg    map[*smt.Term]bool
 	chooseVals map[string]int
 	chooseOrder []string
 }
@@ -349,6 +352,9 @@ func (m *Machine) scheduleOffset(n int) int {
 
 // assume adds c to the path condition; the path ends if it becomes infeasible.
 func (m *Machine) assume(c value) {
+	if b, ok := c.(bool); !ok || !b {
+		m.flush()
+	}
 	switch c := c.(type) {
 	case bool:
 		if !c {
@@ -440,7 +446,10 @@ func (m *Machine) queryBoth(extra ...*smt.Term) (smt.Result, map[string]uint64) 
 	return r, mod
 }
 
-// check discharges an obligation: cond must hold on every input of this path.
+// check registers an obligation: cond must hold on every input of this path. Obligations are
+// discharged in one solver query when the path ends (or before the next assumption, which would
+// otherwise weaken them): pc ∧ (¬A1 ∨ ... ∨ ¬An). Every continuation of the path flushes, so the
+// union of the flushed queries covers the path condition at the assertion.
 func (m *Machine) check(c value, label string) {
 	m.res.Obligations++
 	m.res.Labels[label]++
@@ -451,22 +460,56 @@ func (m *Machine) check(c value, label string) {
 			m.res.Trivial++
 			return
 		}
+		m.flush()
 		m.violation("assert", label, m.pool.Bool(true))
 		panic(pathAbort{"stopped after violated assertion"})
 	case *sym:
-		neg := m.pool.Not(c.t)
-		r, _ := m.queryBoth(neg)
+		if m.pcSet[c.t] {
+			m.res.Discharged++
+			return
+		}
+		m.pending = append(m.pending, pendingOb{label: label, cond: c.t})
+	default:
+		panic(fmt.Sprintf("assert(%T)", c))
+	}
+}
+
+type pendingOb struct {
+	label string
+	cond  *smt.Term
+}
+
+// flush discharges the pending obligations.
+func (m *Machine) flush() {
+	if len(m.pending) == 0 {
+		return
+	}
+	obs := m.pending
+	m.pending = nil
+	var negs []*smt.Term
+	for _, o := range obs {
+		negs = append(negs, m.pool.Not(o.cond))
+	}
+	r, _ := m.queryBoth(m.pool.Or(negs...))
+	switch r {
+	case smt.Unsat:
+		m.res.Discharged += len(obs)
+		return
+	case smt.Unknown:
+		m.res.Unknown++
+		return
+	}
+	// some obligation fails: decide each one
+	for i, o := range obs {
+		r, _ := m.queryBoth(negs[i])
 		switch r {
 		case smt.Unsat:
 			m.res.Discharged++
 		case smt.Unknown:
 			m.res.Unknown++
 		case smt.Sat:
-			m.violation("assert", label, neg)
+			m.violation("assert", o.label, negs[i])
 		}
-		m.assume(c)
-	default:
-		panic(fmt.Sprintf("assert(%T)", c))
 	}
 }
 
@@ -746,7 +789,7 @@ func (e *Engine) runPath(fn *ssa.Function, it workItem, ws *workerSolvers) (pr *
 	m := &Machine{
 		eng: e, pool: smt.NewPool(), ws: ws, sess: ws.lia, lia: lia,
 		globals: map[*ssa.Global]*value{}, prefix: append([]int{}, it.prefix...), model: it.model,
-		known: map[string]*smt.Term{}, res: pr, harness: fn.Name(), onceDone: map[*value]bool{},
+		known: map[string]*smt.Term{}, nonneg: map[*smt.Term]bool{}, res: pr, harness: fn.Name(), onceDone: map[*value]bool{},
 		declared: map[string]bool{}, pcSet: map[*smt.Term]bool{}, chooseVals: map[string]int{},
 	}
 	if m.model == nil {
@@ -778,6 +821,15 @@ func (e *Engine) runPath(fn *ssa.Function, it workItem, ws *workerSolvers) (pr *
 	}()
 	defer func() {
 		r := recover()
+		// discharge what the path asserted before it ended (however it ended)
+		func() {
+			defer func() {
+				if r2 := recover(); r2 != nil {
+					pr.Unknown++
+				}
+			}()
+			m.flush()
+		}()
 		if r == nil {
 			pr.Status = "ok"
 			return
